@@ -687,10 +687,14 @@ class Interp:
                 raise PyRaise(ExcV("IndexError", ()))
         elif isinstance(obj, dict):
             if _has_sym(idx):
-                if not (isinstance(node, ast.Subscript) and isinstance(node.value, ast.Name)):
-                    raise EngineError("symbolic key stored into a dict that is not a local name")
                 a = AssocV(list(obj.items()))
-                self._rebind(env, node.value.id, a)
+                if isinstance(node, ast.Subscript) and isinstance(node.value, ast.Name):
+                    self._rebind(env, node.value.id, a)
+                elif isinstance(node, ast.Subscript) and isinstance(node.value, ast.Attribute):
+                    # the dict is a field of an object: replace the field
+                    self.setattr_v(self.eval(node.value.value, env), node.value.attr, a)
+                else:
+                    raise EngineError("symbolic key stored into a dict that is not a local name or a field")
                 a.set_item(self, idx, v)
                 return
             obj[self.hashable(idx)] = v
@@ -706,6 +710,8 @@ class Interp:
             newget = lambda j, old=old, ii=ii, v=v: self.ite_val(mk(j == ii, "bool"), v, old(j))
             env_set = SeqV(obj.length, newget, obj.kind, obj.name)
             self.assign(node.value, env_set, env)
+        elif isinstance(obj, Rec) and obj.cls.kind != "namedtuple" and obj.cls.lookup("__setitem__"):
+            self.call_function(obj.cls.lookup("__setitem__"), [obj, idx, v], {})
         else:
             h = getattr(obj, "set_item", None)
             if h:
@@ -1322,7 +1328,12 @@ class Interp:
             return a is None and b is None
         if isinstance(a, EnumMember) or isinstance(b, EnumMember):
             if isinstance(a, EnumMember) and isinstance(b, EnumMember):
-                return a is b
+                if a is b:
+                    return True
+                is_int = lambda m: any(isinstance(x, ExternalV) and x.qual == "enum.IntEnum" for x in m.cls.bases)
+                if a.cls is not b.cls and is_int(a) and is_int(b):
+                    return a.value == b.value  # IntEnum members are ints
+                return False
             ea, eb = (a, b) if isinstance(a, EnumMember) else (b, a)
             if any(isinstance(x, ExternalV) and x.qual == "enum.IntEnum" for x in ea.cls.bases):
                 return self.eq(ea.value, eb)
